@@ -304,6 +304,10 @@ func (s *Server) readMessage() (json.RawMessage, error) {
 	if contentLength == 0 {
 		return nil, fmt.Errorf("missing Content-Length header")
 	}
+	if contentLength < 0 {
+		// make([]byte, n) with a negative n panics, outside the recover of the message handler
+		return nil, fmt.Errorf("invalid Content-Length: %d", contentLength)
+	}
 
 	// Validate content length against maximum
 	if contentLength > MaxContentLength {
